@@ -155,8 +155,17 @@ def check_py_interp(fn: ast.FunctionDef) -> Tuple[bool, str, dict]:
                 return False, f"bracketing pair `{ast.unparse(p)}` is not two adjacent samples (hi != lo + 1)", facts
     else:
         raise AnalysisError("interp helper: no bracketing pair assignment found (unrecognised form)")
+    # inline plain local definitions (w = (x_new - x[i1]) / ...) into the returned expression
+    env = {}
+    for st in fn.body:
+        if isinstance(st, ast.Assign) and len(st.targets) == 1 and isinstance(st.targets[0], ast.Name) \
+                and st.targets[0].id not in (lo_name, hi_name):
+            try:
+                env[st.targets[0].id] = symx.to_sympy(st.value, env=env)
+            except symx.Unsupported:
+                pass
     try:
-        expr = symx.to_sympy(main.value)
+        expr = symx.to_sympy(main.value, env=env)
     except symx.Unsupported as e:
         raise AnalysisError(f"interp helper: unsupported return expression: {e}")
     facts["return"] = ast.unparse(main.value)
